@@ -129,7 +129,9 @@ def scenario(cfg, n_resume, seed2, second_gen=False):
             out["bad"].append(("stray-temp-file", f"files left beside checkpoints after a complete run: {stray[:3]}"))
         # resume
         ks = sorted(set(np.linspace(0, len(saves) - 1, n_resume).astype(int).tolist()))
-        for k in ks:
+        # the final checkpoint is resumed twice: with the target already met (no further iteration) and with a larger one
+        plan = [(k, None) for k in ks] + [(len(saves) - 1, "same")]
+        for k, mode in plan:
             sv = saves[k]
             import multiprocessing as mp
             from tvf import idblob
@@ -137,7 +139,7 @@ def scenario(cfg, n_resume, seed2, second_gen=False):
             s3, t3, like3, pt3 = _build(c, tmp)
             np.random.seed(seed2 + k)
             # every other resume asks for MORE effective samples than the run that wrote the checkpoint
-            nt3 = c["n_total"] * (3 if (k % 2 == 1 or k == len(saves) - 1) else 1)
+            nt3 = c["n_total"] * (1 if mode == "same" else 3 if (k % 2 == 1 or k == len(saves) - 1) else 1)
             try:
                 with attach.Hooks() as hk:
                     attach.iteration_budget(hk, 400)
